@@ -234,8 +234,10 @@ def _value_form(v):
     t = type(v)
     mod, name = getattr(t, '__module__', None), getattr(t, '__name__', None)
     if isinstance(v, _Stub):
-        if (mod, name) == ('ZODB.broken', 'rebuild') and tuple(v.args[:2]) == (GONE_MOD, 'GoneValue'):
-            return 'rlost', list(v.args[2:])             # written back as GoneValue.__new__(GoneValue, ref)
+        if mod == 'ZODB.broken' and tuple(v.args[:2]) == (GONE_MOD, 'GoneValue'):
+            # written back by a placeholder: rebuild() = GoneValue.__new__(GoneValue, ref), the reference is lost where the
+            # class exists; any other function of ZODB.broken is taken to call the class again (a repaired tree)
+            return ('rlost' if name == 'rebuild' else 'rvalue'), list(v.args[2:])
         if mod != GONE_MOD:
             return None
         if name == 'GoneValue':
@@ -327,7 +329,7 @@ class _Stub:
     created = []
 
     def __new__(cls, *args):
-        if (cls.__module__, cls.__name__) not in VALUE_CLASSES:
+        if (cls.__module__, cls.__name__) not in VALUE_CLASSES and cls.__module__ != 'ZODB.broken':
             _Stub.created.append('%s.%s' % (cls.__module__, cls.__name__))
         ob = object.__new__(cls)
         ob.args = args
@@ -676,7 +678,7 @@ class GraphReplayer:
                                  'the commit stored %s: new, not reachable from any stored object and never add()ed '
                                  '(written by a savepoint and unlinked again before the commit)' % sorted(res['orphans']))
         if action == 'Commit' and res.get('dangling'):
-            self.soft.setdefault(('Commit', 'dangling', 'reference-to-unstored-object'),
+            self.soft.setdefault(('Commit', 'dangling', 'undone-import-reattached'),
                                  'the commit wrote ordinary references to %s, which have no record' % sorted(res['dangling']))
         if action == 'TouchElsewhere' and res.get('lost'):
             self.soft.setdefault(('TouchElsewhere', 'record', 'missing-class-reduce-args-rewritten'),
@@ -721,6 +723,9 @@ class GraphReplayer:
                     continue
                 raise Mismatch('stale', 'loads', 'node %d: the specification of the code as it is says the object owns an oid '
                                'without a record; it loads' % n)
+            if ob._p_jar is None and ob._p_changed is None:
+                # an ownerless ghost: what is left of an imported copy whose import was undone; the slot is free again
+                ob = self.nodes[n] = make_node(self.kinds[n], node_name(n))
             was_changed = ob._p_changed
             ob._p_activate()
             name, tag, edges, problems = decode_state(
